@@ -48,6 +48,7 @@ class Spec:
         self.all_kinds = False
         self.extra_cases = None         # callable(rng, tier) -> [(grammar, input)] appended to the random stream
         self.deep = None                # callable(tier) -> [descriptor]; impl-only runs (too deep / long for the model's fuel)
+        self.kind_cases = None          # callable(rng, tier) -> [(grammar, input, [ikinds])]: extra cases on specific input kinds
 
     @staticmethod
     def inp_for_kind(ik, inp):
@@ -98,6 +99,12 @@ class Spec:
                         for md in self.modes:
                             yield cid, sx([cid, ik, ek, md, g, self.inp_for_kind(ik, inp)]), dict(g=g, inp=inp, ikind=ik, ekind=ek, mode=md, group=group)
                             cid += 1
+        for g, inp, kinds in (self.kind_cases(rng, tier) if self.kind_cases else []):
+            group += 1
+            for ik in kinds:
+                for md in self.modes:
+                    yield cid, sx([cid, ik, self.ekinds[0], md, g, self.inp_for_kind(ik, inp)]), dict(g=g, inp=inp, ikind=ik, ekind=self.ekinds[0], mode=md, group=group)
+                    cid += 1
 
 # ----------------------------------------------------------------------------------------------
 # extra oracles (on the implementation result alone)
@@ -150,8 +157,19 @@ def nt_backtrack(g, inp):
 C01_CTORS = CORE
 C02_CTORS = ["Any", "Just", "OneOf", "NoneOf", "Then", "Or", "Map", "Filter", "OrNot", "To"] + ITER * 3 + ["MapWith", "ToSlice", "WithCtx", "IgnoreWithCtx", "JustCfg"]
 
-PLAIN_KINDS = ("str", "slice", "array", "stream", "bstream", "mapspan", "withctx", "bytes", "io")
-ALL_KINDS = PLAIN_KINDS + ("mapped", "mappedstream", "iter")
+PLAIN_KINDS = ("str", "slice", "array", "stream", "bstream", "mapspan", "withctx", "bytes", "io", "graphemes", "gslice")
+ALL_KINDS = tuple(k for k in PLAIN_KINDS if k not in ("graphemes", "gslice")) + ("mapped", "mappedstream", "iter")
+# extended grapheme clusters as tokens (FORMAT v4): single code points and the table entries 3000000.. (CR LF, e + acute, a flag, a ZWJ family, Hangul LVT, a + 2 marks)
+GALPHA = [97, 98, 99, 233, 13, 10, 3000000, 3000000, 3000001, 3000002, 3000003, 3000004, 3000005]
+def c10_graphemes(rng, tier):
+    G = Gen(rng, [c for c in CORE + ITER + RECOVER], alpha=GALPHA, slices=True)
+    out = []
+    for _ in range(250 if tier == "quick" else 3000):
+        g = G.g(rng.randint(1, 4))
+        for inp in inputs_for(rng, g, GALPHA, n_valid=2, n_mut=2, n_rand=2):
+            if any(a == 13 and b == 10 for a, b in zip(inp, inp[1:])): continue      # CR LF would merge into one cluster
+            out.append((g, inp, ["graphemes", "gslice"]))
+    return out
 
 def c10_cross(groups):
     """C10: the same grammar and token sequence through every input kind. Kinds with index/offset spans must agree
@@ -238,7 +256,9 @@ SPECS = {
                      "Stream, boxed Stream, map_span, with_context, &[u8], IoInput, and Input::map over a slice / over a Stream / IterInput with gapped token "
                      "spans; plus inputs of 510..1300 tokens with backtracking across Stream's 512-token batch boundary; tie per kind against the machine with "
                      "that kind's span function; cross-kind oracle: index-span kinds agree completely, own-span kinds agree on the verdict, streams never "
-                     "pull more items than exist; non-trivial = non-empty input with a backtracking site"),
+                     "pull more items than exist; plus grammars over extended grapheme clusters (single code points, CR LF, combining sequences, a flag, a ZWJ family, Hangul) through "
+                     "&Graphemes and &[&Grapheme] side by side (the harness checks the token sequence against unicode-segmentation first); "
+                     "non-trivial = non-empty input with a backtracking site"),
     "C11": Spec("C11", CORE + ITER + ["Validate"] + CTX + RECOVER, obs_full, sem_obs=obs_vv_emis_last, ekinds=("rich", "simple"), n_quick=700,
                 gen_hook=lambda G, rng: (G.leftrec() if rng.random() < 0.12 else G.memoize(G.rec(3) if rng.random() < 0.2 else G.g(rng.randint(2, 4)), 0.35)),
                 nontrivial=lambda g, inp: len(inp) > 0 and has_head(g, {"Memo"}),
@@ -407,5 +427,6 @@ SPECS["C12"].deep = c12_deep
 SPECS["C20"].deep = c20_deep
 SPECS["C16"].extra_cases = c16_pairs
 SPECS["C16"].cross = c16_cross
+SPECS["C10"].kind_cases = c10_graphemes
 SPECS["C10"].all_kinds = True
 SPECS["C10"].extra_cases = c10_long
